@@ -81,6 +81,13 @@ def special_form(ex, name, e, st):
         cur = s2.heap.read_global('$in_pos', INT)
         s2.heap.write_global('$in_pos', INT, mk_int(cur.term + 1))
         return [(s2, mk_none())]
+    if name == 'register_ui_state':
+        out = []
+        for s, v in ex.ev(e.args[0], st):
+            s2 = s.copy()
+            s2.heap.write_global('$ui_state', ex.W.parse_type(trace.CELLS['$ui_state']), v)
+            out.append((s2, mk_none()))
+        return out
     if name == 'set_probe':
         out = []
         for s, v in ex.ev(e.args[0], st):
@@ -227,7 +234,7 @@ def call_builtin(ex, obj, args, kwargs, st):
     if obj is exit or getattr(obj, '__name__', '') == 'exit':
         ex.exc_out.append(Outcome('raise', st, ExcVal(SystemExit)))
         return []
-    if inspect.ismodule(getattr(obj, '__self__', None)) or isinstance(obj, types.BuiltinFunctionType) or not repo.in_repo(obj) if isinstance(obj, types.FunctionType) else False:
+    if isinstance(obj, types.BuiltinFunctionType) or (isinstance(obj, types.FunctionType) and not repo.in_repo(obj)):
         return call_external(ex, obj, args, kwargs, st)
     if isinstance(obj, types.FunctionType) and obj.__module__ == 'logging':
         return [(st, mk_none())]
@@ -444,6 +451,12 @@ def iter_descriptor(ex, v, st):
 
 
 def construct_special(ex, cls, args, kwargs, st):
+    import threading
+    if cls is threading.Thread:
+        # an external object: only its identity matters; start/join/is_alive are assumed contracts
+        ex.W.class_id(cls)
+        s2, r = ex.new_ref(st, ex.W.class_id(cls))
+        return [(s2, SV(TObj(cls), [r]))]
     return None
 
 
